@@ -373,6 +373,8 @@ def build(p, quiet=True, roundtrip=False, early_solver=None, two_phase=False, in
             declare_req(r)
     for bi, bf in enumerate(p["buffers"]):
         cls = ps.ConcurrentBuffer if bf["concurrent"] else ps.NonConcurrentBuffer
+        if bf.get("subclass"):
+            cls = type("User" + cls.__name__, (cls,), {})     # a user-defined subclass (no change of behaviour)
         kwb = {"name": bf["name"]}
         for k, f in (("initial", "initial_level"), ("final", "final_level"),
                      ("lower", "lower_bound"), ("upper", "upper_bound")):
